@@ -7,7 +7,7 @@ sys.path.insert(0, os.path.join(os.path.dirname(os.path.abspath(__file__)), ".."
 import engine_check  # noqa: E402
 import diff_engine  # noqa: E402
 
-LEAN_MODULES = ["KmipModel.Props.C11"]
+LEAN_MODULES = ["KmipModel.Props.C11", "KmipModel.Props.ServerRun"]
 RULE = ("pairs (prefix history by several clients, probe request): the probe is sent to the live engine and to a "
         "fresh KmipEngine opened on a copy of the database file taken just before; responses and resulting stores must "
         "be equal; probes are biased to identifier-less requests for the 14 handlers that read the ID placeholder and "
@@ -208,6 +208,10 @@ def run(ctx):
     engine_check.standard_run(ctx, PROFILE, MONITORS, nontrivial, RULE, n_quick=96, n_thorough=1500, length=25,
                               builder="props.c11.builder")
     session_part(ctx)
+    # M17: connections one after the other on one store, byte for byte against the composed model, and the
+    # fresh-server probe at the connection level
+    import e2e_hook
+    e2e_hook.run(ctx, ["c11"])
 
 
 def search(ctx, broken):
@@ -217,6 +221,9 @@ def search(ctx, broken):
 def replay(ctx, rep):
     # replays are histories; re-run with probes on every line
     r = rep.get("replay", rep)
+    if r.get("kind") == "server-e2e":
+        import e2e_hook
+        return e2e_hook.replay(ctx, rep)
     if r.get("kind") == "session-probe":
         import impl_session as S
         import props.c12 as c12
